@@ -60,6 +60,7 @@ TrReset ==
     /\ att' = {} /\ lastOK' = NoneOK
     /\ acc' = Empty.T /\ accP' = Empty.P /\ mem' = {}
     /\ last' = L("init", TRUE, TRUE, FALSE, "", "")
+    /\ taint' = FALSE
     /\ n' = 0 /\ crashes' = 0
     /\ pre' = NoPre
 
@@ -72,7 +73,7 @@ TrReq ==
           /\ Shows(h.m)
           /\ (Ln.code # h.code => Drift("status code"))
           /\ pre' = [set |-> TRUE, q |-> q, T |-> T, P |-> P, A |-> A, X |-> X, att |-> att, lastOK |-> lastOK,
-                     acc |-> acc, accP |-> accP, mem |-> mem]
+                     acc |-> acc, accP |-> accP, mem |-> mem, taint |-> taint]
     /\ n' = n + 1
 
 TrRestart ==
@@ -92,17 +93,37 @@ TrEnv ==
 \* transactions; the logged catalogue must be what a restart shows on one of them (TLC picks which:
 \* the number and order of invisible transactions is not part of the verdict).  A state that is
 \* neither "request not visible" nor "request visible" must belong to a named deviation class.
+\* the durable state the logged catalogue itself describes
+LoggedDur ==
+    [T |-> [t \in TaskIds |->
+              LET v == Ln.tasks[t] IN
+              IF v.x THEN [script |-> v.script, dbrps |-> v.dbrps, vars |-> v.vars, status |-> v.status, tpl |-> v.tpl, err |-> v.err]
+              ELSE NoTask],
+     P |-> [p \in TplIds |-> Ln.tpls[p]],
+     A |-> SeqToSet(Ln.assoc)]
+\* durable state after the k-th transaction of the last request (0: before its first one; -1: as logged)
+DurAt(k, h) == IF k = 0 THEN [T |-> pre.T, P |-> pre.P, A |-> pre.A]
+               ELSE IF k = -1 THEN LoggedDur ELSE h.m.tr[k]
+ClassOf(k, h) == CrashClass(pre.q, pre.acc, pre.accP, pre.mem, Reopen(DurAt(k, h)))
 CrashMatch(k, h) ==
-    LET o == Reopen(h.m.tr[k])
-        c == CrashClass(pre.q, pre.acc, pre.accP, pre.mem, o)
-    IN /\ Shows(o)
-       /\ \/ c = "atomic"
-          \/ c \in Known /\ PrintT(<<"KF-HIT", "crash-" \o c>>)
-\* the logged transaction index first; any other only if that one does not explain the line
+    LET c == ClassOf(k, h) IN
+    \* what a restart shows on that file: every enabled task that can start is executing
+    /\ Shows(Reopen(DurAt(k, h)))
+    \* once tainted there is no accepted catalogue the crash state could be compared with
+    /\ \/ c = "atomic" \/ pre.taint
+       \/ c \in Known /\ PrintT(<<"KF-HIT", "crash-" \o c>>)
+\* Which durable state the crash line is judged on: the model's state after the logged transaction
+\* index; else the model's state at any other transaction boundary of the request; else (the code
+\* issues its transactions in another order than the model) the state the line itself describes.
+\* The verdict is the same in all three cases: visible or not, or a named class; restart starts
+\* the enabled tasks.  Only the first is free of a DRIFT report.
 CrashPoints(h) ==
     LET N == Len(h.m.tr)
         own == IF Ln.k \in 1..N /\ ShowsV(Reopen(h.m.tr[Ln.k])) THEN {Ln.k} ELSE {}
-    IN IF own # {} THEN own ELSE { k \in 1..N : Drift("crash point index") }
+        any == { k \in 0..N : ShowsV(Reopen(DurAt(k, h))) }
+    IN IF own # {} THEN own
+       ELSE IF any # {} THEN { k \in any : Drift("crash point index") }
+       ELSE { k \in {-1} : Drift("crash state is no transaction boundary of the model") }
 
 PreM == Mach([T |-> pre.T, P |-> pre.P, A |-> pre.A], pre.X, pre.att, pre.lastOK)
 
@@ -118,9 +139,10 @@ TrCrashGo ==
     /\ LET h == Handle(PreM, pre.q) IN
        \E k \in CrashPoints(h) :
           /\ CrashMatch(k, h)
-          /\ LET o == Reopen(h.m.tr[k]) IN
+          /\ LET o == Reopen(DurAt(k, h)) IN
              /\ Install(o)
              /\ last' = L("crash", FALSE, FALSE, FALSE, "", "atomic")   \* the class was judged in CrashMatch
+             /\ taint' = (taint \/ ClassOf(k, h) # "atomic")
              /\ Rebase(o)
     /\ crashes' = crashes + 1 /\ n' = n + 1
     /\ UNCHANGED up
